@@ -744,6 +744,7 @@ func (i *interpreter) doSelect(fr *frame, instr *ssa.Select) value {
 		send bool
 	}
 	i.maybePreemptSync()
+	askedEarly := false
 	for {
 		var ready []cs
 		var timers []cs
@@ -795,7 +796,22 @@ func (i *interpreter) doSelect(fr *frame, instr *ssa.Select) value {
 			chosen = -1
 		default:
 			// nothing ready: let the other goroutines run first; a timer fires
-			// only when nobody else can make progress
+			// only when nobody else can make progress - or, when schedules are
+			// explored, EARLY as a scheduling decision that costs one preemption
+			// (asked once per execution of the select)
+			if len(timers) > 0 && !askedEarly && i.timerMayFireEarly() {
+				askedEarly = true
+				t := i.w.newInput("timer_fires_early", 1)
+				if i.w.decideFresh(t) {
+					i.w.preemptLeft--
+					i.w.preempted++
+					c := timers[0]
+					chosen = c.idx
+					i.progress++
+					recv, recvOk = zero(instr.States[c.idx].Chan.Type().Underlying().(*types.Chan).Elem()), true
+					break
+				}
+			}
 			i.curG.timerWait = len(timers) > 0
 			me := i.curG
 			me.waitReady = func() bool {
